@@ -1,4 +1,4 @@
-SPECIFICATION Spec
+SPECIFICATION SimSpec
 CONSTANTS
   Record = TRUE
   Scripts <- ScriptsS
@@ -10,4 +10,4 @@ INVARIANT EventsOnceInOrder
 INVARIANT OneAtATime
 INVARIANT BrokenReported
 INVARIANT AbortTellsAll
-CHECK_DEADLOCK TRUE
+CHECK_DEADLOCK FALSE
